@@ -132,10 +132,17 @@ def ref_line_set(spec):
     return s
 
 
+def line_numbers(maxn):
+    """line numbers of the alphabet: small ones plus numbers with more digits (8 < 10 < 100 as
+    numbers, not as strings)"""
+    return list(range(1, maxn + 1)) + [9, 10, 11, 100]
+
+
 def lines_specs(maxn, maxitems):
-    items = [str(a) for a in range(1, maxn + 1)]
-    for a in range(1, maxn + 1):
-        for b in range(a, maxn + 1):
+    nums = line_numbers(maxn)
+    items = [str(a) for a in nums]
+    for i, a in enumerate(nums):
+        for b in nums[i:]:
             items.append("%d-%d" % (a, b))
             items.append("%d:%d" % (a, b))
     for k in range(1, maxitems + 1):
@@ -204,9 +211,14 @@ def e2e_case(item):
         lines, b0, b1 = list(body), 1, len(body)
     elif kind == "noise":
         what, posn = arg
-        noise = {"comment": c + " noise", "label": ".Lnoise:", "directive": ".p2align 4",
-                 "blank": ""}[what]
-        nb = body[:posn] + [noise] + body[posn:]
+        if what == "comment50":
+            noise = [c + " noise %d" % k for k in range(50)]
+        elif what == "mixed60":
+            noise = [[c + " n%d" % k, ".Ln%d:" % k, ".p2align 4"][k % 3] for k in range(60)]
+        else:
+            noise = [{"comment": c + " noise", "label": ".Lnoise:", "directive": ".p2align 4",
+                      "blank": ""}[what]]
+        nb = body[:posn] + noise + body[posn:]
         lines, b0, b1 = build_file([pro], marker(isa, "start", "one"), nb,
                                    marker(isa, "end", "one"), [epi])
     path = os.path.join(_E2E["dir"], "k_%s_%d_%s_%s.s" % (isa, bi, kind, abs(hash(str(arg)))))
@@ -259,8 +271,9 @@ def run(ctx):
     it0 = items[len(items) // 3]
     res.add_sample({"marker_case(isa, body, style, prologue#, epilogue#)": list(it0)})
     # (b) --lines grammar
-    maxn, maxitems = (8, 3) if ctx.thorough else (6, 3)
-    nitems = (maxn + maxn * (maxn + 1)) ** 1
+    maxn, maxitems = (5, 3) if ctx.thorough else (3, 3)
+    nn = len(line_numbers(maxn))
+    nitems = nn + nn * (nn + 1)
     total = sum(nitems ** k for k in range(1, maxitems + 1))
     step = max(1, total // 64 + 1)
     chunks = [(lo, min(total, lo + step), maxn, maxitems) for lo in range(0, total, step)]
@@ -292,6 +305,10 @@ def run(ctx):
                 for what in ("comment", "label", "directive", "blank"):
                     for posn in range(len(BODIES[isa][bi]) + 1):
                         vs.append(("noise", (what, posn)))
+                # enough noise lines to lift the kernel over the 50-line threshold of the
+                # multi-process dependency search
+                vs.append(("noise", ("comment50", 1)))
+                vs.append(("noise", ("mixed60", len(BODIES[isa][bi]) - 1)))
                 eitems += [(isa, arch, bi, v) for v in vs]
     eout = core.pmap(e2e_case, eitems, chunk=4)
     base = {}
@@ -325,7 +342,7 @@ def run(ctx):
                 "epilogue(<=2 chunks) over 8 decoys (other register, other value, marker mov + non-"
                 ".byte directive, truncated bytes, marker mov + instruction, comment, label) x 7 "
                 "marker styles x 3 bodies x 2 ISAs (quick: one side <= 1 chunk); (b) every --lines "
-                "string of <= 3 items over line numbers 1..6 (thorough 1..8); (c) marked / --lines "
+                "string of <= 3 items over line numbers {1..3 (thorough 1..5), 9, 10, 11, 100}; (c) marked / --lines "
                 "(incl. descending and overlapping pieces) / extracted-only / noise-line variants "
                 "through the real CLI entry point give identical per-instruction and summary numbers")
     res.assumptions = ["the decoys are look-alikes by construction (mc/checks/c11.py)",
